@@ -42,10 +42,18 @@ type eCase struct {
 	Stop0   bool       `json:"stop0"`
 	Prev    string     `json:"prev"`    // fresh | stale
 	Hold    string     `json:"hold"`    // name of the rule held at its gate ("" = none)
+	History []eHistOp  `json:"history"` // when present, the rule set is built by this sequence of builder operations (C04)
 	QuietMs int        `json:"quiet_ms"`
 }
 
+type eHistOp struct {
+	Kind  string   `json:"kind"` // full | incr | remove
+	Rules []eRule  `json:"rules"`
+	Names []string `json:"names"`
+}
+
 type eObs struct {
+	PrimeKeys []string `json:"prime_keys"` // keys of the map handed back by the priming call, read again after the call under test
 	ID      int                    `json:"id"`
 	Order   []string               `json:"order"` // rb.Kc.SortRules names as installed
 	Events  [][2]string            `json:"events"`
@@ -218,7 +226,37 @@ func callEntry(g *engine.Gengine, rb *builder.RuleBuilder, c *eCase, tag *engine
 
 func runEngineCase(c *eCase) eObs {
 	obs := eObs{ID: c.ID, Result: map[string]interface{}{}}
-	master, _, err := compiledRules(c.Rules)
+	var master *builder.RuleBuilder
+	var err error
+	if len(c.History) > 0 {
+		master = builder.NewRuleBuilder(context.NewDataContext())
+		for _, op := range c.History {
+			var sb strings.Builder
+			for _, r := range op.Rules {
+				sb.WriteString(eRuleText(r))
+			}
+			func() {
+				defer func() {
+					if r := recover(); r != nil {
+						err = fmt.Errorf("history operation %s panicked: %v", op.Kind, r)
+					}
+				}()
+				switch op.Kind {
+				case "full":
+					err = master.BuildRuleFromString(sb.String())
+				case "incr":
+					err = master.BuildRuleWithIncremental(sb.String())
+				case "remove":
+					err = master.RemoveRules(op.Names)
+				}
+			}()
+			if err != nil {
+				break
+			}
+		}
+	} else {
+		master, _, err = compiledRules(c.Rules)
+	}
 	if err != nil {
 		obs.Compile = err.Error()
 		return obs
@@ -240,13 +278,19 @@ func runEngineCase(c *eCase) eObs {
 	rb.Kc = master.Kc
 
 	g := engine.NewGengine()
-	if c.Prev == "stale" {
+	var primeMap map[string]interface{}
+	if c.Prev == "stale" || c.Prev == "stale-empty" {
 		prime := builder.NewRuleBuilder(context.NewDataContext())
-		if e := prime.BuildRuleFromString("rule \"old__\" begin return 1 end"); e != nil {
+		text := "rule \"old__\" begin return 1 end"
+		if c.Prev == "stale-empty" { // the earlier call's rules return nothing: its caller holds an EMPTY map
+			text = "rule \"old__\" begin x = 1 end"
+		}
+		if e := prime.BuildRuleFromString(text); e != nil {
 			obs.Compile = "prime: " + e.Error()
 			return obs
 		}
 		_ = g.Execute(prime, true)
+		primeMap, _ = g.GetRulesResultMap()
 	}
 
 	type done struct {
@@ -319,6 +363,11 @@ func runEngineCase(c *eCase) eObs {
 			obs.ErrMsg = obs.ErrMsg[:300]
 		}
 	}
+	obs.PrimeKeys = []string{}
+	for k := range primeMap {
+		obs.PrimeKeys = append(obs.PrimeKeys, k)
+	}
+	sort.Strings(obs.PrimeKeys)
 	if !obs.Hang {
 		m, _ := g.GetRulesResultMap()
 		if m == nil {
